@@ -416,7 +416,7 @@ def check_c09(tier, seed, replay=None, selftest=False):
 
 
 # ------------------------------------------------------------------------------------------ C15 long streams
-def c15_behaviour(rng, alg, fam, crossing, nctx=1):
+def c15_behaviour(rng, alg, fam, crossing, nctx=1, variant=None):
     """segments whose running total crosses 2^29 / 2^32 / 2^32+2^29 at a chosen residue; each submit < 2^32"""
     B = gen_hash.BLOCK[alg]
     P = gen_hash.LENF[alg]
@@ -429,7 +429,7 @@ def c15_behaviour(rng, alg, fam, crossing, nctx=1):
             first = (1 << 29) - rng.choice([1, B, 3 * B + 5, 1000])
             segs = [first, (1 << 29) - first + res + rng.choice([0, B, 5 * B])]
         elif crossing == 32:
-            r = rng.random()
+            r = rng.random() if variant is None else (0.1, 0.45, 0.9)[variant % 3]
             if r < 0.3:
                 segs = [(1 << 32) - 1, 1 + res + rng.choice([0, B])]                 # one maximal submit
             elif r < 0.6:
@@ -470,11 +470,14 @@ def check_c15(tier, seed, replay=None, selftest=False):
         if tier == "quick":
             # both crossings on every family and the dispatched entry (the padding code is per family: a rotation would miss
             # a family-local truncation of the length field)
-            plan = [(f, x) for f in fams + ["isal"] for x in (29, 32)]
+            # three shapes of the 2^32 crossing (one maximal submit / a pending partial block followed by a maximal segment /
+            # three medium segments): quick rotates them over the families with the seed, thorough runs all three everywhere
+            plan = [(f, 29, None) for f in fams + ["isal"]] + [(f, 32, (seed + ai + i) % 3) for i, f in enumerate(fams + ["isal"])]
         else:
-            plan = [(f, x) for f in fams + ["isal", "legacy"] for x in (29, 32)] + [(fams[(seed + ai) % len(fams)], 33), ("isal", 33)]
-        for fam, crossing in plan:
-            jobs.append(hash_job("c15-%s-%s-%d" % (alg, fam, crossing), [c15_behaviour(rng, alg, fam, crossing)]))
+            plan = ([(f, 29, None) for f in fams + ["isal", "legacy"]] + [(f, 32, v) for f in fams + ["isal", "legacy"] for v in (0, 1, 2)]
+                    + [(fams[(seed + ai) % len(fams)], 33, None), ("isal", 33, None)])
+        for fam, crossing, var in plan:
+            jobs.append(hash_job("c15-%s-%s-%d-%s" % (alg, fam, crossing, var), [c15_behaviour(rng, alg, fam, crossing, variant=var)]))
     # one lane holding a single segment of >= 2^31 bytes while the manager is full and turns over short jobs: every lane position
     # of the long job x the shortest job at lane distance +-{1, L/4, L/2} (the partners of the minimum-search reduction)
     for alg in gen_hash.FAMS:
